@@ -84,7 +84,7 @@ class EventMultiplexer:
         self._prefetch()
 
         next_dt = None
-        prefetched_events = [evnt for evnt in self._prefetched_events.values() if evnt]
+        prefetched_events = [evnt for evnt in self._prefetched_events.values() if evnt is not None]
         if prefetched_events:
             next_dt = min(map(lambda evnt: evnt.when, prefetched_events))
         return next_dt
@@ -100,12 +100,12 @@ class EventMultiplexer:
                 evnt = source.pop()
                 self._prefetched_events[source] = evnt
             # If the event matches the filter, check if the next one to return.
-            if evnt and evnt.when <= max_dt and (ret_event is None or evnt.when < ret_event.when):
+            if evnt is not None and evnt.when <= max_dt and (ret_event is None or evnt.when < ret_event.when):
                 ret_source = source
                 ret_event = evnt
 
         # Consume the event.
-        if ret_source:
+        if ret_source is not None:
             self._prefetched_events[ret_source] = None
 
         return (ret_source, ret_event)
@@ -119,7 +119,7 @@ class EventMultiplexer:
             source for source, event in self._prefetched_events.items() if event is None
         ]
         for source in sources_to_pop:
-            if event := source.pop():
+            if (event := source.pop()) is not None:
                 self._prefetched_events[source] = event
 
 
